@@ -347,8 +347,9 @@ ComputeAverageDistance calculates the average distance between random pairs of d
 It returns the average distance or 0.0 if there are fewer than two documents or if the sample size is non-positive.
 */
 func (c *Collection) computeAverageDistance(samples int) float64 {
-	c.mutex.RLock()
-	defer c.mutex.RUnlock()
+	// The caller (ComputeStats) already holds the read lock. Taking it again
+	// here deadlocks as soon as a writer is waiting in between: RWMutex blocks
+	// new readers behind a pending Lock.
 
 	if samples <= 0 {
 		return 0.0
